@@ -20,7 +20,7 @@ def prepare_build(repo, bdir):
 
 _desc = mmo_overlay.describe(ID)
 
-RULE = ("Units of 1/8. exhaustive: every op sequence of length <= 3 (quick) / 4 (thorough) over an 8-op alphabet "
+RULE = ("one OMove in three (decided from the op alone) is executed on the ZoneSpace as a path of sub-millimetre steps (1/2048 unit, exact in float32) ending at the target - a different history of UpdateEntityPos calls with the same current positions, which the refinement theorem covers; Units of 1/8. exhaustive: every op sequence of length <= 3 (quick) / 4 (thorough) over an 8-op alphabet "
         "(add/move/remove of two entities on and around the borders of a 3x3 grid) followed by 4 queries; boundary sweep: on 5 grids, "
         "for every zone border and every clamp boundary (begin, end, begin + zones*size = far edge of the extra last zone) and one "
         "unit (1/8) to either side, on both axes: entities placed there, moved across it, removed, and queries whose bounding-box "
